@@ -21,12 +21,20 @@ RULE = ("TLC explores the abstract lease lock (RedisLock.tla) over all sequences
         "constantly): TLC generates the transition cover for SetExpire values at the width boundaries of the lease "
         "arithmetic (2^24/2^31/2^32 ms, 2^15/2^16/2^31/2^32 s; a seed-rotated subset in the quick tier), replayed on the "
         "real code, and the random / concurrent / scheduler histories draw one SetExpire in six from that range; those "
-        "traces are validated against RedisLockWide.tla (Base 10^6). distinct = distinct operation histories executed "
+        "traces are validated against RedisLockWide.tla (Base 10^6). 'Every number of lock instances': LockIdent.tla "
+        "makes the identity an instance presents to the store explicit (instances created one after the other, an ident "
+        "map, a store that compares identities; model-checked to refine RedisLock.tla exactly while identities are "
+        "distinct, counterexamples for a wrapping sequence number), LockPop.tla carries it into trace validation: one "
+        "process creates 2^18 (thorough: 2^24) RedisLock instances, logs per batch how many instances and how many new "
+        "identities (census; guard: each instance has its own), keeps the instances at creation distances 1, 2, 2^8-1, "
+        "2^8, 2^8+1 ... 2^16-1, 2^16, 2^16+1 ... 2^24+1 and seeded ones, and every pair of them contends for one key "
+        "(hold/ask/release, lease boundary, late release). distinct = distinct operation histories executed "
         "(generated histories by content; random and concurrent ones by seed and index).")
 
 FAM = "lock"
 PKG = "core/stores/redis"
-DRV = ["zz_verif_lock_test.go", "zz_verif_c19_wide_test.go"]
+DRV = ["zz_verif_lock_test.go", "zz_verif_c19_wide_test.go", "zz_verif_c19_pop_test.go",
+       "zz_verif_c19_wb_test.go", "zz_verif_c19_nowb_test.go"]
 
 # SetExpire values (seconds) at the width boundaries of seconds*1000+500: the lease crosses 2^24 ms (float32
 # mantissa), 2^31 ms, 2^32 ms; the seconds cross 2^15, 2^16, 2^31 - and, as k standing for 2^31 + k, 2^31 and 2^32-1
@@ -75,6 +83,9 @@ def check(run):
         "the store is closed/restarted only between calls",
         "obs events read the key and its ttl directly from miniredis (white-box: value == RedisLock.id); a value "
         "that is no instance's id is only compared for existence and ttl",
+        "two draws of the identity generator of the unchanged tree (16 random alphanumeric characters) never coincide "
+        "within one run (probability < 10^-14 for 2^24 instances); census events read RedisLock.id (white-box; "
+        "without it the census only counts instances and the contention of far-apart pairs decides)",
         "the legal arguments of SetExpire(int) are 0 .. 2^32-1 (the field is a uint32; anything else is truncated by "
         "the conversion and not a 'configured number of seconds'); int is 64 bits on the platform the check runs on",
     ]
@@ -87,6 +98,11 @@ def check(run):
     run.model_check(FAM, "RedisLockWideMC", "RedisLockWideMC.cfg", workers=4,
                     note="RedisLock in two-limb numbers (base 3, 2 instances, secs 0 and 4 = <<1,1>>), state relative to the "
                          "clock + its low limb: every step is a step of RedisLock.tla (Refines), limb arithmetic lemmas")
+    if not thorough:  # (the thorough tier checks the same with up to 4 instances, below)
+        run.model_check(FAM, "LockIdent", "LockIdentMC.cfg", workers=4,
+                        note="identities explicit: instances created one after the other (up to 3), fresh identity each, "
+                             "the store compares identities: refines RedisLock.tla (creation stutters) and LockPop.tla "
+                             "(every creation is a Census step with k = n); IdentDistinctMap, CensusLemma, OwnerIsIdent")
     bugs = [("LockImplBugDel.cfg", "release script without the id comparison"),
             ("LockImplBugNoNX.cfg", "lock script sets the key without NX")]
     if thorough:
@@ -100,6 +116,19 @@ def check(run):
                         note="abstract lock, 4 instances, secs 0..3")
         run.model_check(FAM, "LockImpl", "LockImplMC3b.cfg", workers=8,
                         note="3 goroutines on 3 instances, refinement")
+        run.model_check(FAM, "LockIdent", "LockIdentMC4.cfg", workers=8,
+                        note="identities explicit: instances created one after the other (up to 4), fresh identity each, "
+                             "the store compares identities: refines RedisLock.tla (creation stutters) and LockPop.tla "
+                             "(every creation is a Census step with k = n); IdentDistinctMap, CensusLemma, OwnerIsIdent")
+        run.model_check(FAM, "LockIdent", "LockIdentLemma.cfg", workers=4,
+                        note="CensusLemma over ALL ident maps (any identity at each creation, 4 instances, 3 identities): "
+                             "injective <=> number of identities = number of instances")
+        for cfg, what in (("LockIdentBugWrap.cfg", "identity = sequence number modulo Width: the (Width+1)-th instance acquires "
+                                                   "the key the first one holds (AtMostOneHolder)"),
+                          ("LockIdentBugWrapRel.cfg", "the late-comer's Acquire/Release is no step of RedisLock.tla (Refines)"),
+                          ("LockIdentBugWrapPop.cfg", "the creation that repeats an identity is no Census step (PopRefines)")):
+            run.model_check(FAM, "LockIdent", cfg, workers=2, expect="violation",
+                            note="documented counterexample, wrapping sequence number: " + what)
         run.model_check(FAM, "RedisLockWideMC", "RedisLockWideMC7.cfg", workers=8,
                         note="limbs, base 7, 3 instances, secs 0..2: refines RedisLock.tla")
         run.model_check(FAM, "RedisLockWideMC", "RedisLockWideMC7b.cfg", workers=8,
@@ -151,14 +180,16 @@ def check(run):
             run.validate(FAM, "RedisLockWideTrace", "RedisLockWideTrace.cfg", tr, label="wide-replay-" + tag, heap="2g")
     # ---- code -> spec: long random histories, free-running concurrent rounds, command-level scheduler
     # (SetExpire drawn from the whole range: limb format, validated against RedisLockWide.tla)
-    drivers = [("TestVerifLockRandom$", "random", None, None),
+    drivers = [("TestVerifLockPop$", "population", None, None),
+               ("TestVerifLockRandom$", "random", None, None),
                ("TestVerifLockConcurrent$", "concurrent", "2,8", None),
                ("TestVerifLockSched$", "sched", None, None)]
     if not thorough:  # one compile, one JVM start (the wide replay rides along)
-        drivers = [("TestVerifLock(WideReplay|Random|Concurrent|Sched)$", "wide-replay+random+concurrent+sched", "4",
+        drivers = [("TestVerifLock(Pop|WideReplay|Random|Concurrent|Sched)$", "population+wide-replay+random+concurrent+sched", "4",
                     wide_beh["q"][1])]
     for test, label, cpu, inp in drivers:
-        tr = run.go_driver(PKG, DRV, test, cpu=cpu, inp=inp, env={"VERIF_LOCK_WIDE_N": 2, "VERIF_LOCK_PROBE": 1})
+        tr = run.go_driver(PKG, DRV, test, cpu=cpu, inp=inp, env={"VERIF_LOCK_WIDE_N": 2, "VERIF_LOCK_PROBE": 1},
+                           timeout=900 if thorough else 600)
         n0 = run.traces
         run.validate(FAM, "RedisLockWideTrace", "RedisLockWideTrace.cfg", tr, label=label, heap="2g")
         extra = run.traces - n0 - (len(inp) if inp else 0)
